@@ -20,6 +20,12 @@ ASSUMPTIONS = c06.ASSUMPTIONS + ['the selector\'s ILog functors are not port eve
 
 
 def omissions(info, clients):
+    """[(kind, script options)]; the first one is an event of a port of the component that the shell
+    does not expose (the mock component's inner port)."""
+    return [('comp:inner-port', {'skipcomp': 'vf_inner'})] + exposed_omissions(info, clients)
+
+
+def exposed_omissions(info, clients):
     """[(kind, script lines that set up exactly this omission)]"""
     out = []
     for p in info.ports:
